@@ -286,7 +286,7 @@ func c06RunTcp(script []c06Ev, drain string, async bool) (op, out string) {
 		if bytes.Equal(relay, want) && c06Err(end) == wantEnd {
 			intact = "1"
 		}
-		return fmt.Sprintf("res=%s nm=%s buf=%d derr=%s armed=%s relay=%s end=%s intact=%s", res, nm, len(buf), derr, armed, c06Hex(relay), c06Err(end), intact)
+		return fmt.Sprintf("res=%s nm=%s buf=%d armed=%s relay=%s end=%s intact=%s # derr=%s", res, nm, len(buf), armed, c06Hex(relay), c06Err(end), intact, derr)
 	})
 	_ = cs.Close()
 	// the op is the script as the reads saw it, followed by what was never consumed
@@ -977,7 +977,7 @@ func c06RunUdp(qc *c06QuicCase) (op, out string) {
 	out = c06Guard(func() string {
 		s := NewPacketSniffer(nil, time.Hour)
 		defer s.Close()
-		var outs []string
+		var outs, diag []string
 		for _, d := range qc.datagrams {
 			s.AppendData(append([]byte(nil), d...))
 			name, err := s.SniffUdp()
@@ -991,7 +991,8 @@ func c06RunUdp(qc *c06QuicCase) (op, out string) {
 					res = "nonascii"
 				}
 			}
-			outs = append(outs, fmt.Sprintf("%s/%s/%d/%d", res, nm, s.quicNextRead, len(s.quicCryptos)))
+			outs = append(outs, fmt.Sprintf("%s/%s", res, nm))
+			diag = append(diag, fmt.Sprintf("%d/%d", s.quicNextRead, len(s.quicCryptos)))
 		}
 		intact := "1"
 		data := s.Data()
@@ -1004,7 +1005,7 @@ func c06RunUdp(qc *c06QuicCase) (op, out string) {
 				}
 			}
 		}
-		return strings.Join(outs, " ") + " intact=" + intact
+		return strings.Join(outs, " ") + " intact=" + intact + " # " + strings.Join(diag, " ")
 	})
 	return op, out
 }
@@ -1057,7 +1058,7 @@ func TestVerifC06(t *testing.T) {
 		st.Emit(op, out)
 		if strings.HasPrefix(out, "crash:") {
 			violation("panic in stream sniffer: %s  op: %.300s", out, op)
-		} else if !strings.HasSuffix(out, "intact=1") {
+		} else if c06Field(out, "intact") != "1" {
 			violation("relay bytes differ from what the client sent (or the stream ended differently): %.400s  op: %.400s", out, op)
 		}
 		return out
@@ -1356,12 +1357,12 @@ func TestVerifC06(t *testing.T) {
 		g.stats.Inc(fmt.Sprintf("quic.datagrams.%d", len(qc.datagrams)))
 		if strings.HasPrefix(out, "crash:") || strings.HasPrefix(out, "err:oob") {
 			violation("panic in packet sniffer: %s", out)
-		} else if !strings.HasSuffix(out, "intact=1") {
+		} else if c06Field(out, "intact") != "1" {
 			violation("datagrams kept by the packet sniffer differ from what was appended: %.300s", out)
 		}
 		if !corrupt && version != 0xff00001d {
 			// every CRYPTO byte has arrived: the last answer must be the carried name
-			steps := strings.Fields(out)
+			steps := strings.Fields(strings.SplitN(out, " # ", 2)[0])
 			last := strings.SplitN(steps[len(steps)-2], "/", 2)[0]
 			if hc.expect == "na" {
 				hc.expect = "nf" // SniffQuic answers "not found" for every hello it cannot read a name from
